@@ -2,6 +2,7 @@ import PrysmVerif.Generated.C12
 import PrysmVerif.Lemmas.C12Sound
 import PrysmVerif.Lemmas.C12Stats
 import PrysmVerif.Lemmas.C12Crop
+import PrysmVerif.Lemmas.C12LS
 /-!
 # C12 — Interferogram data, mask and coordinates stay coherent over any history
 
@@ -59,6 +60,87 @@ theorem cropBox_window (v : Nat → Nat → Bool) (rows cols r0 r1 c0 c1 : Nat)
   · simp only [Option.some.injEq, Prod.mk.injEq] at hb
     obtain ⟨rfl, rfl, rfl, rfl⟩ := hb
     exact ⟨rfl, rfl, rfl, rfl⟩
+
+/-- (TRANSLATED) `crop` measures its margins on the FINITE samples (the validity notion of the statistics) -/
+theorem gen_crop_validity_is_finite : Generated.C12.cropValidityIsFinite = true := by decide
+
+/-- `Interferogram.crop` assembled ONLY from translated pieces: the four margins (which axis `any` reduces, forward / reversed
+    `argmax`), the early-return test and the two slices of every branch (NumPy bound normalisation included) -/
+def cropSource (v : Nat → Nat → Bool) (rows cols : Nat) : Option (Nat × Nat × Nat × Nat) :=
+  let l : Int := Generated.C12.cropLeft v rows cols
+  let r : Int := Generated.C12.cropRight v rows cols
+  let t : Int := Generated.C12.cropTop v rows cols
+  let b : Int := Generated.C12.cropBottom v rows cols
+  if Generated.C12.cropReturnsEarly l r t b = true then none
+  else some ((Generated.C12.cropRowLo l r t b rows cols).toNat, (Generated.C12.cropRowHi l r t b rows cols).toNat,
+             (Generated.C12.cropColLo l r t b rows cols).toNat, (Generated.C12.cropColHi l r t b rows cols).toNat)
+
+/-- the translated early-return test and slices, for ANY four margins that either leave a valid row / column or are both 0
+    (no valid sample), give the model's window `[l, rows - r) x [t, cols - b)` resp. the early return -/
+theorem crop_core (l r t b rows cols : Nat) (hR : l + r < rows ∨ (l = 0 ∧ r = 0)) (hC : t + b < cols ∨ (t = 0 ∧ b = 0)) :
+    (if Generated.C12.cropReturnsEarly (l : Int) r t b = true then none
+     else some ((Generated.C12.cropRowLo l r t b rows cols).toNat, (Generated.C12.cropRowHi l r t b rows cols).toNat,
+             (Generated.C12.cropColLo l r t b rows cols).toNat, (Generated.C12.cropColHi l r t b rows cols).toNat)) =
+    (if l = 0 ∧ r = 0 ∧ t = 0 ∧ b = 0 then none else some (l, rows - r, t, cols - b)) := by
+  simp only [Generated.C12.cropReturnsEarly, Generated.C12.cropRowLo, Generated.C12.cropRowHi,
+    Generated.C12.cropColLo, Generated.C12.cropColHi, normIdx, decide_eq_true_eq]
+  by_cases h : l = 0 ∧ r = 0 ∧ t = 0 ∧ b = 0
+  · obtain ⟨rfl, rfl, rfl, rfl⟩ := h
+    simp
+  · rw [if_neg (by omega), if_neg h]
+    congr 1
+    refine Prod.ext ?_ (Prod.ext ?_ (Prod.ext ?_ ?_)) <;> simp only [] <;> (repeat' split) <;> omega
+
+/-- (TRANSLATED, end to end) the `crop` of the current source — margins, early return and slices as translated — computes the
+    model's `cropBox` for EVERY validity matrix of EVERY shape (all-invalid, already tight, 0-sized included); so
+    `crop_keeps_valid`, `crop_window`, `crop_idempotent` are statements about the source's crop -/
+theorem crop_source_is_cropBox (v : Nat → Nat → Bool) (rows cols : Nat) :
+    cropSource v rows cols = cropBox v rows cols := by
+  have hR : argmaxB (rowAny v rows cols) + argmaxB (rowAny v rows cols).reverse < rows ∨
+      (argmaxB (rowAny v rows cols) = 0 ∧ argmaxB (rowAny v rows cols).reverse = 0) := by
+    cases h : (rowAny v rows cols).any id
+    · exact Or.inr (margins_zero _ h)
+    · left; have := margins_lt _ h; rwa [rowAny_length] at this
+  have hC : argmaxB (colAny v rows cols) + argmaxB (colAny v rows cols).reverse < cols ∨
+      (argmaxB (colAny v rows cols) = 0 ∧ argmaxB (colAny v rows cols).reverse = 0) := by
+    cases h : (colAny v rows cols).any id
+    · exact Or.inr (margins_zero _ h)
+    · left; have := margins_lt _ h; rwa [colAny_length] at this
+  simp only [cropSource, cropBox, Generated.C12.cropLeft, Generated.C12.cropRight, Generated.C12.cropTop,
+    Generated.C12.cropBottom]
+  exact crop_core _ _ _ _ rows cols hR hC
+
+/-- cropping twice, through the TRANSLATED crop: the second call returns early -/
+theorem crop_source_idempotent (v : Nat → Nat → Bool) (rows cols r0 r1 c0 c1 : Nat)
+    (hb : cropSource v rows cols = some (r0, r1, c0, c1)) :
+    cropSource (fun i j => v (i + r0) (j + c0)) (r1 - r0) (c1 - c0) = none := by
+  rw [crop_source_is_cropBox] at hb ⊢
+  exact cropBox_idempotent v rows cols r0 r1 c0 c1 hb
+
+example : cropSource (fun i j => decide (1 ≤ i ∧ i ≤ 2 ∧ 2 ≤ j ∧ j ≤ 3)) 4 5 = some (1, 3, 2, 4) := by decide
+
+/-- (TRANSLATED) the polar transform behind `RichData.r / .t` (`coordinates.cart_to_polar`, read from the current source) is
+    `rho = hypot(x, y)`, `phi = arctan2(y, x)` — for every pair of functions `hyp` (symmetric) and `at2`, every `x, y`: the
+    argument ORDER of `arctan2` is what the obligation pins (a generic `at2` is not symmetric) -/
+theorem gen_polar_transform {F : Type} (hyp at2 : F → F → F) (hsym : ∀ a b, hyp a b = hyp b a) (x y : F) :
+    Generated.C12.polarRho hyp at2 x y = hyp x y ∧ Generated.C12.polarPhi hyp at2 x y = at2 y x := by
+  exact ⟨by first | rfl | exact hsym _ _, rfl⟩
+
+/-- non-vacuity: `max` is a symmetric `hyp` -/
+example : ∀ a b : Nat, max a b = max b a := Nat.max_comm
+
+/-- (TRANSLATED) the statistics the object reports are the util statistics of the same name applied to `self.data`:
+    `Interferogram.pv / rms / Sa / std` hand `self.data` to `util.pv / rms / Sa / std` (codes 1, 2, 3, 4), so `gen_util_stats` and
+    `util_stats_identities` are statements about what the properties return -/
+theorem gen_stats_delegation : Generated.C12.ifgStatCallee = [1, 2, 3, 4] := by decide
+
+/-- (TRANSLATED) `pad(samples=...)` asks `pad2d` for the shape `(rows + s0, cols + s1)` — each count added to its own axis, for
+    every shape and every pair of counts —, an integer `samples` pads both axes, and `self.data`, `value` and that shape are
+    what `pad2d` receives -/
+theorem gen_pad_shape (rows cols s0 s1 : Int) :
+    Generated.C12.padShape0 rows cols s0 s1 = rows + s0 ∧ Generated.C12.padShape1 rows cols s0 s1 = cols + s1 ∧
+    Generated.C12.padIntSamplesBothAxes = true ∧ Generated.C12.padHandsDataValueShapeToPad2d = true := by
+  refine ⟨?_, ?_, by decide, by decide⟩ <;> simp only [Generated.C12.padShape0, Generated.C12.padShape1] <;> omega
 
 /-- (TRANSLATED) the five statistics of `prysm.util`, read as list expressions over the valid samples, ARE the model's:
     `mean`, `pv = max - min`, `rms = sqrt (mean square)`, `Sa = sum |v - mean| / n`, `std = sqrt (variance)` -/
@@ -242,6 +324,51 @@ theorem validity_preserved (l : List (Eff × Bool × (K → K) × Option K))
 
 end validity
 
+/-! ## the whole state over any history -/
+
+section history
+variable {K : Type} [Field K]
+
+/-- one call of a method that does not claim to change validity (an entry of the TRANSLATED `keepers` table) leaves the validity
+    of every stored sample as it was, whatever samples it addresses and whatever finite values it subtracts -/
+theorem keeper_call_keeps_validity (m : List (Eff × Bool × (K → K) × Option K))
+    (hm : m.map Prod.fst ∈ Generated.C12.keepers.map Prod.snd) (d : Option K) :
+    (m.foldl sampleStep d).isSome = d.isSome := by
+  obtain ⟨e, he, hee⟩ := List.mem_map.mp hm
+  have hk : KeepsValidity (m.map Prod.fst) = true := by
+    have := List.all_eq_true.mp keepers_keepValidity e he
+    rw [← hee]; exact this
+  exact validity_preserved m hk d
+
+/-- **the whole state over any history**: after ANY sequence of calls of methods of the current source (any length, interleaving,
+    arguments, addressed samples), (1) the coordinate state is coherent, and (2) the validity of every stored sample is what it
+    was before the first call of the sequence, as long as no call of {mask, fill, spike_clip, crop, pad, filter} occurs in it — by
+    induction over the history, from the two translated tables -/
+theorem history_coherent_and_validity
+    (ops : List (List (Eff × Bool × (K → K) × Option K) × Env K))
+    (hops : ∀ o ∈ ops, o.1.map Prod.fst ∈ Generated.C12.table.map Prod.snd) (s0 : State K) (h0 : Inv s0) (d0 : Option K) :
+    Inv (ops.foldl (fun s o => run o.2 s (o.1.map Prod.fst)) s0) ∧
+    ((∀ o ∈ ops, o.1.map Prod.fst ∈ Generated.C12.keepers.map Prod.snd) →
+      (ops.foldl (fun d o => o.1.foldl sampleStep d) d0).isSome = d0.isSome) := by
+  constructor
+  · have := inv_reachable (K := K) (ops.map fun o => (o.1.map Prod.fst, o.2))
+      (by intro o ho; obtain ⟨o', ho', rfl⟩ := List.mem_map.mp ho; exact hops o' ho') s0 h0
+    rwa [List.foldl_map] at this
+  · intro hk
+    induction ops generalizing d0 with
+    | nil => rfl
+    | cons o rest ih =>
+      rw [List.foldl_cons]
+      rw [ih (fun o' ho' => hops o' (List.mem_cons_of_mem _ ho')) _ (fun o' ho' => hk o' (List.mem_cons_of_mem _ ho'))]
+      exact keeper_call_keeps_validity o.1 (hk o List.mem_cons_self) d0
+
+/-- non-vacuity: `remove_piston` is a method of both translated tables, so histories satisfying both hypotheses exist -/
+example : Generated.C12.eff_remove_piston ∈ Generated.C12.keepers.map Prod.snd ∧
+    Generated.C12.eff_remove_piston ∈ Generated.C12.table.map Prod.snd := by
+  constructor <;> simp [Generated.C12.keepers, Generated.C12.table]
+
+end history
+
 /-! ## statistics over the valid samples (any ordered field; `ℝ` for the square-root forms) -/
 
 section stats
@@ -276,6 +403,51 @@ theorem tilt_removal_idempotent (l : List (K × K × K))
 theorem power_removal_idempotent (l : List (K × K × K))
     (hdet : (sums l).aa * (sums l).bb - (sums l).ab * (sums l).ab ≠ 0) : (fit2 (removeFirst l)).1 = 0 :=
   fit2_removeFirst l hdet
+
+/-- least-squares removal, ANY number of design columns, ANY subset `S` of removed columns, NO rank assumption: if `c` solves
+    the normal equations of the fit to `z`, then `c` with the removed coefficients set to 0 solves the normal equations of the
+    fit to the data after removal — re-fitting CAN find nothing for the removed terms (tilt: 2 columns, all removed; power:
+    columns `rho^2, 1`, the first removed) -/
+theorem ls_removal_residual_solves {m k : Nat} (A : Fin m → Fin k → K) (z : Fin m → K) (c : Fin k → K) (S : Finset (Fin k))
+    (h : C12L.NormalEq A z c) : C12L.NormalEq A (C12L.removeCols A z c S) (fun l => if l ∈ S then 0 else c l) :=
+  C12L.removed_solves A z c S h
+
+/-- ... and with independent columns (the Gram matrix has trivial kernel) EVERY re-fit finds exactly 0 for every removed
+    column: removal is idempotent, for any number of columns and any removed subset -/
+theorem ls_removal_idempotent {m k : Nat} (A : Fin m → Fin k → K) (z : Fin m → K) (c c' : Fin k → K) (S : Finset (Fin k))
+    (hind : ∀ d : Fin k → K, (∀ j, ∑ i, A i j * ∑ l, A i l * d l = 0) → d = 0)
+    (h : C12L.NormalEq A z c) (h' : C12L.NormalEq A (C12L.removeCols A z c S) c') : ∀ l ∈ S, c' l = 0 :=
+  C12L.refit_zero A z c c' S hind h h'
+
+/-- tilt removal is idempotent for EVERY rank of the design (single row / column, a single valid sample, collinear samples
+    included): when ALL fitted columns are removed (tilt: `x` and `y`, no constant), the zero vector solves the normal equations of
+    the re-fit, and zero is the unique minimum-norm vector — the solution `np.linalg.lstsq` returns — so re-fitting finds nothing.
+    (For a removed SUBSET — power removal — this is false for rank-deficient designs; see `ls_removal_idempotent`.) -/
+theorem tilt_removal_idempotent_any_rank {F : Type} [Field F] [LinearOrder F] [IsStrictOrderedRing F] {m k : Nat}
+    (A : Fin m → Fin k → F) (z : Fin m → F) (c : Fin k → F) (h : C12L.NormalEq A z c) :
+    C12L.NormalEq A (C12L.removeCols A z c Finset.univ) (fun _ => 0) ∧
+    ∀ d : Fin k → F, C12L.NormalEq A (C12L.removeCols A z c Finset.univ) d →
+      (∑ l : Fin k, ((fun _ => (0 : F)) l) ^ 2 ≤ ∑ l, d l ^ 2) ∧ (∑ l, d l ^ 2 = 0 → d = fun _ => 0) :=
+  ⟨C12L.full_removal_zero_solves A z c h, fun d _ => C12L.zero_is_min_norm d⟩
+
+/-- non-vacuity (rank-deficient): a zero design column — the `y` column of a single-row map — any coefficient solves the normal equations -/
+example : C12L.NormalEq (fun (_ : Fin 2) (_ : Fin 1) => (0 : ℚ)) ![1, 3] (fun _ => 5) := by
+  intro j; simp
+
+/-- non-vacuity: a one-column design of ones has independent columns, and the mean solves its normal equations -/
+example : (∀ d : Fin 1 → ℚ, (∀ j : Fin 1, ∑ i : Fin 2, (fun (_ : Fin 2) (_ : Fin 1) => (1 : ℚ)) i j *
+      ∑ l : Fin 1, (fun (_ : Fin 2) (_ : Fin 1) => (1 : ℚ)) i l * d l = 0) → d = 0) ∧
+    C12L.NormalEq (fun (_ : Fin 2) (_ : Fin 1) => (1 : ℚ)) ![1, 3] (fun _ => 2) := by
+  constructor
+  · intro d h
+    have := h 0
+    funext l
+    fin_cases l
+    simp at this
+    simpa using this
+  · intro j
+    simp [Fin.sum_univ_two]
+    norm_num
 
 /-- the fitted coefficients are the least-squares ones: they solve the normal equations -/
 theorem fit_solves_normal_equations (l : List (K × K × K))
